@@ -4,7 +4,7 @@ import random
 from common import *  # noqa
 import framework as fw
 
-MODULE = "LWV.Props.C03"
+MODULE = ["LWV.Props.C03", "LWV.Props.C03Full"]
 
 KINDS = ["beacon", "probe_req", "probe_resp", "assoc_req", "assoc_resp", "reassoc_req", "reassoc_resp", "auth", "deauth", "disassoc",
          "action", "action_noack", "timing_ad", "atim", "rts", "cts"]
@@ -53,7 +53,11 @@ def gen_line(rnd, kind, ops=True, full=False):
                     break
                 o.append("a:%d:%s" % (rnd.choice([1, 3, 5, 42, 45, 48, 50, 221, 255, rnd.randrange(256)]), bytes(rnd.getrandbits(8) for _ in range(l)).hex() or "-"))
             if full and kind in ("beacon", "probe_resp") and rnd.random() < 0.4:
-                o.append("s:" + rssid(rnd))
+                z = rssid(rnd)
+                if rnd.random() < 0.25 and z != "-" and len(z) >= 4:      # a NUL inside the C string ends it
+                    cut = 2 * rnd.randrange(0, len(z) // 2)
+                    z = z[:cut] + "00" + z[cut + 2:]
+                o.append("s:" + z)
             if full and kind in ("beacon", "probe_resp", "assoc_resp", "reassoc_resp") and rnd.random() < 0.4:
                 o.append("c:%d" % rnd.randrange(256))
             if full and rnd.random() < 0.3:
@@ -61,10 +65,11 @@ def gen_line(rnd, kind, ops=True, full=False):
         if kind in ("action", "action_noack"):
             total = 0
             for _ in range(rnd.choice([0, 1, 2, 6])):
-                l = rnd.choice([0, 1, 2, 30, 100, 255 - total if total < 255 else 0])
-                if total + l > 255:
+                l = rnd.choice([0, 1, 2, 30, 100, 255 - total if total < 255 else 0, 256 - total, 300])
+                if l > 300:
                     break
-                total += l
+                if total + l <= 255:
+                    total += l                # beyond the one-octet length the call must refuse and change nothing
                 o.append("d:" + (bytes(rnd.getrandbits(8) for _ in range(l)).hex() or "-"))
                 if full and rnd.random() < 0.25:
                     o.append("f")          # clear the details; later details start from an empty list again
